@@ -237,9 +237,9 @@ def judge_order(subset, positions, tally):
                 break
             lines = [l for l in t.split("\n") if l.startswith("- optimisation:")]
 
-            def strip(l):
-                return l.split(" up to position")[0]
-            if [strip(l) for l in lines] != [strip(w) for w in want]:
+            # the whole line is compared: for generous/greedy it names the
+            # cut-off rank, i.e. the (defaulted) extra argument of the criterion
+            if lines != want:
                 fp = "order:lines-not-in-position-order" if feasible else \
                     "order:criteria-reported-after-first-non-optimal-solve"
                 tally.violation({"argv": tail, "file": text, "fingerprint": fp,
